@@ -199,6 +199,17 @@ func checkPath(c pathCase) (msg string, class string) {
 	if !c.NoMap {
 		data = spec.BuildMap(c.Data, rec)
 		r.SetThis(data)
+	} else {
+		// another runner that never got a map has bound the very same names: its entries are its own
+		rp := formula.NewRunner()
+		rp.SetThisValue(c.Root, "another runner's")
+		rp.SetThisValue("$v", "another runner's")
+		for _, st := range c.Steps {
+			rp.SetThisValue(st.Key, map[string]interface{}{"a": "another runner's"})
+		}
+		if q := obs.Parse([]byte("typeof this, $w = 1")); q.OK() {
+			obs.Eval(rp, context.Background(), q.Src.Expression)
+		}
 	}
 	text := c.text()
 	// reference lookup
